@@ -63,6 +63,6 @@ which is the honest measure of how much the sampled side of this machinery cover
 it, and a change that invalidates a `Cxx_facts` obligation or the model correspondence is reported at least as a
 broken tie.
 
-''' % (n, res['concrete'], res['noinput'], res['none'], res['notrun'], n - len(strengthened) - res['notrun'], n - res['notrun'], len(missed), len(tie_only)) + table + '\n\n'
+''' % (n, res['concrete'], res['noinput'], res['none'], res['notrun'], n - len(strengthened) - res['notrun'] - res['none'], n - res['notrun'], len(missed), len(tie_only)) + table + '\n\n'
 open('/verif/DESIGN.md', 'w').write(s[:i] + new + s[j:])
 print(n, res, len(missed), len(tie_only))
